@@ -2,6 +2,7 @@
 //! modes: c27 (wake protocol of the runner), c24 (ticks / defer_tick / run-until-idle),
 //!        c26 (loop blocks), c25 (references)
 mod c24;
+mod c25;
 mod c26;
 mod c27;
 
@@ -11,6 +12,7 @@ fn main() {
         "c27" => c27::main(&args),
         "c24" => c24::main(&args),
         "c26" => c26::main(&args),
+        "c25" => c25::main(&args),
         m => {
             eprintln!("unknown mode {m}");
             std::process::exit(2)
